@@ -68,6 +68,36 @@ TARGETS = {
             (PA, 'add_opcode_parsing_handlers'), (FN, 'run_tape')],
 }
 
+CL = 'tapescript/classes.py'
+# second campaign: the instructions the builders' locks and witnesses are made of, the
+# interpreter plumbing under them, and the helpers of the crypto instructions
+TARGETS2 = {
+    'C14': [(FN, 'OP_DUP'), (FN, 'OP_FALSE'), (FN, 'OP_TRUE'), (FN, 'OP_NOT'), (FN, 'OP_POP0'),
+            (FN, 'OP_PUSH0'), (FN, 'OP_PUSH1'), (FN, 'OP_PUSH2'), (FN, 'OP_READ_CACHE'),
+            (FN, 'OP_WRITE_CACHE'), (FN, 'OP_SPLIT'), (FN, 'OP_SWAP2'), (FN, 'OP_VERIFY'),
+            (FN, 'OP_SIGN'), (FN, 'OP_SIGN_STACK'), (FN, 'and_bytes'), (FN, 'not_bytes'),
+            (FN, 'bytes_are_same'), (FN, 'OP_RETURN'), (CL, 'Stack.put'), (CL, 'Stack.get'),
+            (CL, 'Stack.peek'), (CL, 'Tape.read'), (CL, 'Tape.has_terminated'),
+            (FN, 'OP_EVAL'), (FN, 'OP_TAPROOT'), (FN, 'OP_MERKLEVAL'), (TL, 'make_scripthash_lock'),
+            (TL, 'make_taproot_lock'), (TL, 'make_graftroot_lock')],
+    'C15': [(FN, 'OP_EQUAL'), (FN, 'OP_EQUAL_VERIFY'), (FN, 'OP_CHECK_SIG_VERIFY'),
+            (FN, 'OP_DERIVE_SCALAR'), (FN, 'OP_DERIVE_POINT'), (FN, 'derive_key_from_seed'),
+            (FN, 'int_to_bytes'), (FN, 'bytes_to_int'), (TL, '_pubkey'), (TL, '_prvkey')],
+    'C16': [(FN, 'OP_LOOP'), (FN, 'OP_TRY_EXCEPT'), (FN, 'run_tape'), (FN, 'OP_IF'),
+            (FN, 'OP_IF_ELSE'), (FN, 'OP_CALL'), (FN, 'OP_DEF'), (FN, 'OP_EVAL')],
+    'C17': [(FN, 'OP_CONCAT'), (FN, 'H_big'), (FN, 'H_small'), (FN, 'OP_GET_MESSAGE'),
+            (FN, 'OP_SIGN'), (FN, 'OP_CHECK_SIG'), (TL, 'make_single_sig_lock'),
+            (TL, 'make_single_sig_witness')],
+    'C18': [(TL, 'make_ptlc_lock'), (TL, 'make_ptlc_refund_witness'), (TL, 'make_adapter_witness'),
+            (TL, 'make_adapter_locks_pub'), (TL, 'decrypt_adapter'), (FN, 'OP_CHECK_ADAPTER_SIG'),
+            (FN, 'OP_DECRYPT_ADAPTER_SIG')],
+    'C19': [(FN, 'OP_GET_MESSAGE'), (FN, 'OP_SIGN'), (FN, 'OP_CHECK_TRANSFER'), (FN, 'run_script'),
+            (FN, 'run_auth_scripts'), (FN, 'OP_TRY_EXCEPT'), (FN, 'OP_LOOP'), (FN, 'OP_EVAL')],
+    'C20': [(FN, 'OP_MERKLEVAL'), (FN, 'OP_EVAL'), (FN, 'OP_TRY_EXCEPT'), (FN, 'OP_LOOP'),
+            (FN, 'OP_IF'), (FN, 'OP_IF_ELSE'), (FN, 'OP_CALL'), (FN, 'OP_DEF'), (FN, 'OP_DEPTH'),
+            (FN, 'OP_EQUAL_VERIFY'), (FN, 'OP_POP0')],
+}
+
 SWAPS = [
     (r'>=', ['>', '<']), (r'<=', ['<', '>']), (r'(?<![<>=!])==', ['!=']), (r'!=', ['==']),
     (r'(?<![<>=-])>(?![=>])', ['>=']), (r'(?<![<>=])<(?![=<])', ['<=']),
@@ -136,10 +166,10 @@ def in_text(line, pos):
     return False
 
 
-def generate(only=None):
+def generate(only=None, which=1):
     muts = []
     cache = {}
-    for pid, targets in TARGETS.items():
+    for pid, targets in (TARGETS if which == 1 else TARGETS2).items():
         if only and pid != only:
             continue
         for rel, fname in targets:
@@ -256,8 +286,9 @@ def main():
     ap.add_argument('--only')
     ap.add_argument('--par', type=int, default=4)
     ap.add_argument('--list', action='store_true')
+    ap.add_argument('--set', type=int, default=1)
     a = ap.parse_args()
-    muts = generate(a.only)
+    muts = generate(a.only, a.set)
     # spread evenly over the targets when limited: every k-th mutant
     if a.limit and len(muts) > a.limit:
         step = len(muts) / a.limit
@@ -285,7 +316,8 @@ def main():
                'killed_by_check': stages.get('killed_by_check', 0),
                'survived_the_check': len(surv)}
     if not a.only and not a.limit:
-        with open(os.path.join(HERE, 'evidence', 'selftest-automutants.json'), 'w') as f:
+        with open(os.path.join(HERE, 'evidence', 'selftest-automutants%s.raw.json' %
+                               ('' if a.set == 1 else str(a.set))), 'w') as f:
             json.dump({'summary': summary, 'survivors': surv,
                        'results': [{k: r.get(k) for k in ('pid', 'file', 'func', 'line', 'new', 'stage',
                                                           'signature')} for r in out]},
